@@ -16,9 +16,15 @@ ASSUMPTIONS = ['the expected text is computed by an independent renderer written
                'file); the meaning of symbol / specials macros is read from the latex2text table (the agreement of that table '
                'with the encoder table is C08\'s obligation)',
                'fill_text is excluded, as in the property']
-PARTIAL = ['C03_tree_level is a theorem about the latex2text model on TREES recognised as core (Render.abstract); that the parser '
-           'produces such trees for every document of the core grammar (C03_end_to_end of DESIGN 6/C03) is not proved here '
-           '(parser builders; one composed instance: C03_doc_end_to_end)',
+PARTIAL = ['C03_end_to_end_partial / C03_doc_tree_core_partial / C03_doc_cores_par_partial / '
+           'C03_compositional_par_source_partial / C03_compositional_space_source_partial (composition of C03_tree_level with '
+           'C02_parse_unparse_partial): for every '
+           'document of the CORE document grammar of C02 (text, groups, macros with mandatory braced arguments, $..$ '
+           '\\(..\\) \\[..\\], comments, paragraph breaks) that is ok_doc and core (doc_cores: bare symbol macros, '
+           'transparent / accent macros with one braced argument), latex_to_text = render of the computed core items for '
+           'every option set, and the paragraph-break and space joins at string level; environments, specials other than the '
+           'paragraph break, \\item, single-token accent arguments are outside that grammar (tree level + '
+           'correspondence only); C03_compositional_space_source_partial: the space join at string level, same grammar',
            '\\frac, \\sqrt and \\item[..] (%-templates over macro arguments, the optional argument of \\item) are not '
            'constructors of Render.core: covered by the correspondence and the Python renderer only',
            'a formatting macro is core only with exactly one braced argument (\\textbf x with a bare token argument is not)']
